@@ -358,12 +358,17 @@ fn run(input: &Tree) -> Option<Tree> {
             }
             let instrs: Vec<PushInstruction> = (0..k as i64).map(PushInstruction::push_int).collect();
             let d = instrs.into_distribution().ok()?;
+            // even modes: the default close probability; odd modes: an explicit one; through every constructor
+            let c = ratio(p.get(3)?, p.get(4)?)? as f32;
             let genes: Vec<PushGene> = match p.get(2)?.int()? {
                 0 => d.into_gene_generator().into_collection_generator(n).sample(&mut AnyRng::new(seed)),
-                1 => {
-                    let c = ratio(p.get(3)?, p.get(4)?)? as f32;
-                    d.into_gene_generator_with_close_probability(c).into_collection_generator(n).sample(&mut AnyRng::new(seed))
-                }
+                1 => d.into_gene_generator_with_close_probability(c).into_collection_generator(n).sample(&mut AnyRng::new(seed)),
+                2 => d.to_gene_generator().into_collection_generator(n).sample(&mut AnyRng::new(seed)),
+                3 => d.to_gene_generator_with_close_probability(c).into_collection_generator(n).sample(&mut AnyRng::new(seed)),
+                4 => push::genome::plushy::GeneGenerator::with_uniform_close_probability(d).into_collection_generator(n).sample(&mut AnyRng::new(seed)),
+                5 => push::genome::plushy::GeneGenerator::new(c, d).into_collection_generator(n).sample(&mut AnyRng::new(seed)),
+                6 => push::genome::plushy::GeneGenerator::with_uniform_close_probability(&d).to_collection_generator(n).sample(&mut AnyRng::new(seed)),
+                7 => push::genome::plushy::GeneGenerator::new(c, &d).to_collection_generator(n).sample(&mut AnyRng::new(seed)),
                 _ => return None,
             };
             let mut h: BTreeMap<i64, u64> = BTreeMap::new();
@@ -508,6 +513,10 @@ fn gen_c12(tier: &str, rng: &mut Sm) -> Gen {
         g.inputs.push(case(rng, n, tl![A(8), a(k), A(0), A(0), A(1)]));
         g.inputs.push(case(rng, n, tl![A(8), a(k), A(1), A(1), A(4)]));
         g.inputs.push(case(rng, n, tl![A(8), a(k), A(1), A(0), A(1)]));
+        // the same through the borrowing conversions and the constructors themselves
+        for (mode, cn, cd) in [(2, 0, 1), (3, 1, 4), (4, 0, 1), (5, 3, 4), (6, 0, 1), (7, 1, 2)] {
+            g.inputs.push(case(rng, n, tl![A(8), a(k), A(mode), A(cn), A(cd)]));
+        }
     }
     if tier == "thorough" {
         // further dyadic rates, lengths and alphabets
